@@ -806,6 +806,27 @@ pub fn custom_claims_strategy() -> impl Strategy<Value = Map<String, Value>> {
   ]
 }
 
+/// Registered JWT claim names (RFC 7519, RFC 7800, VC data model) that a *credential* claims set has no field for:
+/// there they are ordinary custom claims.
+pub const CREDENTIAL_FREE_CLAIM_NAMES: &[&str] = &["aud", "nonce", "cnf", "vp"];
+/// The same for a *presentation* claims set (the holder goes to `iss`; there is no `sub`).
+pub const PRESENTATION_FREE_CLAIM_NAMES: &[&str] = &["sub", "nonce", "cnf", "vc"];
+
+/// `custom_claims_strategy` plus, in a third of the cases, one claim named like a registered claim the claims set
+/// in question does not define.
+pub fn custom_claims_strategy_with(names: &'static [&'static str]) -> impl Strategy<Value = Map<String, Value>> {
+  (
+    custom_claims_strategy(),
+    prop::option::weighted(0.33, (0..names.len(), prop_oneof![Just(json!("did:example:someone")), Just(json!(7)), Just(json!({"jwk": {"kty": "OKP"}}))])),
+  )
+    .prop_map(move |(mut map, extra)| {
+      if let Some((i, v)) = extra {
+        map.insert(names[i].to_string(), v);
+      }
+      map
+    })
+}
+
 fn url_strategy(stem: &'static str) -> impl Strategy<Value = String> {
   // Spellings that the `url` crate leaves untouched (lower-case scheme and host, explicit path).
   prop_oneof![
